@@ -1,13 +1,15 @@
 """Lexical projection of a character stream into the events of Sgr.tla (trusted, purely lexical):
 <<"c", cp>> per visible character, <<"sgr", [params]>> per ESC [ ... m, <<"nl">>, <<"link", id>> per OSC 8
 (id: small int per distinct URI, 0 = link closed), <<"ctl", cp>> for other C0 controls, <<"unk">> for any
-other escape sequence."""
+other escape sequence.  With controls=True a well-formed CSI sequence other than SGR (cursor movement, erase, private
+modes: ESC [ parameters intermediates final) is <<"esc", [code points]>> instead of <<"unk">> - what a control segment
+carries; the default keeps the older vocabulary."""
 import re
 
-_TOK = re.compile(r"\x1b\[([0-9;:]*)m|\x1b\]8;([^;\x1b\x07]*);([^\x1b\x07]*)(?:\x1b\\|\x07)|\x1b\[[0-?]*[ -/]*[@-~]|\x1b.|\n|[^\x1b\n]", re.S)
+_TOK = re.compile(r"\x1b\[([0-9;:]*)m|\x1b\]8;([^;\x1b\x07]*);([^\x1b\x07]*)(?:\x1b\\|\x07)|(\x1b\[[0-?]*[ -/]*[@-~])|\x1b.|\n|[^\x1b\n]", re.S)
 
 
-def lex(s, links=None):
+def lex(s, links=None, controls=False):
     links = links if links is not None else {}
     out = []
     for m in _TOK.finditer(s):
@@ -30,6 +32,8 @@ def lex(s, links=None):
         elif m.group(3) is not None:
             uri = m.group(3)
             out.append(["link", 0 if uri == "" else links.setdefault(uri, len(links) + 1)])
+        elif controls and m.group(4) is not None:
+            out.append(["esc", [ord(ch) for ch in t]])
         elif t.startswith("\x1b"):
             out.append(["unk"])
         elif ord(t) < 32 or ord(t) == 127:
